@@ -25,7 +25,7 @@ def one_edit(t, rng):
     nodes = list(gen.nodes_of(t))
     path, n = rng.choice(nodes)
     for _ in range(20):
-        f = rng.choice(["name", "content", "tail", "prefix", "attr", "extras", "nsmap", "child+", "child-", "swap", "attrval", "none-empty"])
+        f = rng.choice(["name", "content", "tail", "prefix", "attr", "extras", "nsmap", "child+", "child-", "swap", "attrval", "none-empty", "regroup", "regroup"])
         if f == "name":
             n[1] = n[1] + "X"
         elif f == "content":
@@ -55,6 +55,16 @@ def one_edit(t, rng):
             if not n[8]:
                 continue
             n[8].pop(rng.randrange(len(n[8])))
+        elif f == "regroup":
+            # the same nodes in the same level order under different parents: the last child of one node becomes the first child of its
+            # next sibling (a(b(d), c) vs a(b, c(d))); node counts per level and every node's fields are unchanged, the shape is not
+            cands = [(x, j) for _, x in nodes for j in range(len(x[8]) - 1) if x[8][j][8]]
+            if not cands:
+                continue
+            x, j = rng.choice(cands)
+            moved = x[8][j][8].pop()
+            x[8][j + 1][8].insert(0, moved)
+            return f"regroup@{x[1]}"
         elif f == "swap":
             if len(n[8]) < 2:
                 continue
